@@ -21,6 +21,7 @@ RULE = (
     "inline_math_comprehensions. oracle: original and rewritten text are executed under every valuation x,y in "
     "{-1..3}: equal value and equal type. non-trivial = the rule changed the text"
 )
+RULE += (" chained comparisons and membership tests (15 chains; alone, negated, combined with a simple comparison or another chain) as formulas and as conditions of the eight condition shapes.")
 ASSUMPTIONS = [
     "operands of and/or are comparisons (booleans), so reordering by the simplifier cannot change the value",
     "the box {-1..3} strictly contains every constant and every +-1 boundary of the atoms",
